@@ -144,6 +144,60 @@ def run(ctx):
     token_coverage(ctx, fns)
     comma_discipline(ctx, fns)
     short_forms(ctx)
+    docs_once(ctx, fns)
+    doc_line_normal_form(ctx, fns)
+
+
+def docs_once(ctx, fns):
+    """R13.7: the doc comments of a node are printed exactly once per visit — for every AST struct that has a `docs`
+    field there is exactly one `DocumentPrinter::docs(&node.docs)` call site in the whole printer (a second site, e.g. in
+    the parent's loop *and* in the node's own method, doubles the comments on every print/parse cycle)."""
+    db, prov = ctx.db, ctx.prov
+    sites = {}
+    owners = sorted(k for k, a in db.adts.items() if k.startswith(AST) and a.get("local") and a["kind"] == "struct"
+                    and any(fl["name"] == "docs" for v in a["variants"] for fl in v["fields"]))
+    for o in owners:
+        sites[o] = []
+    for f in fns:
+        for t in f.calls():
+            if t.path != PR + "docs" or len(t.args) < 2:
+                continue
+            sl = narrow(prov, f, t.args[1])
+            for (n, o, v) in sl.fields:
+                if n == "docs" and o in sites:
+                    sites[o].append("%s (%s)" % (f.id.rsplit("::", 1)[1], t.span))
+    for o in owners:
+        k = len(sites[o])
+        ctx.ob("R13.7", "docs-once|" + o.split("::")[-1], k == 1,
+               "`%s.docs` is printed at exactly one site: %s" % (o.split("::")[-1], sites[o][0]) if k == 1 else
+               ("`%s.docs` is never printed: the doc comments are dropped" % o.split("::")[-1] if k == 0 else
+                "`%s.docs` is printed at %d sites (%s): every print/parse cycle multiplies the doc comments" % (o.split("::")[-1], k, "; ".join(sites[o]))),
+               site=db.adts[o].get("span", ""))
+    ctx.floor("R13.7", 12)
+
+
+def doc_line_normal_form(ctx, fns):
+    """R13.8: the parser stores a doc comment trimmed (`str::trim` in the comment-token conversion), and the printer emits
+    one `///` comment per *line*; each emitted line is therefore re-read trimmed, so it must be emitted trimmed — the
+    text interpolated into the `/// {}` write passes through `str::trim` — or the second print differs from the first."""
+    db, prov = ctx.db, ctx.prov
+    f = db.fn(PR + "docs")
+    ctx.touch(f)
+    g = db.fns.get("wac_parser::lexer::Lexer::comments")
+    ptrim = sum(1 for t in g.calls() if (t.path or "") == "core::str::trim") if g is not None else 0
+    ctx.ob("R13.8", "parser-trims", ptrim >= 2, "the parser's doc-comment conversion (Lexer::comments) trims the comment text at %d sites" % ptrim, nontrivial=False)
+    ws = [t for t in f.calls() if (t.path or "").endswith("Write::write_fmt")]
+    n = 0
+    for t in ws:
+        sl = prov.slice(f, t.args[1])
+        if not sl.has_call("core::str::lines") and not sl.has_field("comment", "DocComment"):
+            continue
+        n += 1
+        ok = any((c.path or "") == "core::str::trim" for _, c in sl.calls)
+        ctx.ob("R13.8", "doc-line-trimmed", ok, "each doc line is written through str::trim (what re-parsing would store)" if ok else
+               "a doc line is written verbatim: an interior line of a block doc comment keeps its indentation / trailing blanks, is re-read trimmed, "
+               "and the second print differs from the first (formatting is not idempotent)", site="%s in %s" % (t.span, f.id))
+    ctx.ob("R13.8", "count", n >= 1, "doc-line writes found: %d" % n, nontrivial=False)
 
 
 def parser_tokens(ctx, ty):
